@@ -15,6 +15,7 @@ import (
 	"net/textproto"
 	"net/url"
 	"path/filepath"
+	"strconv"
 	"strings"
 
 	"nhooyr.io/websocket/internal/errd"
@@ -282,13 +283,21 @@ func acceptDeflate(ext websocketExtension, mode CompressionMode) (*compressionOp
 			continue
 		}
 
-		if strings.HasPrefix(p, "client_max_window_bits=") {
+		if strings.HasPrefix(p, "client_max_window_bits=") && validWindowBits(strings.TrimPrefix(p, "client_max_window_bits=")) {
 			// We can't adjust the deflate window, but decoding with a larger window is acceptable.
 			continue
 		}
 		return nil, false
 	}
 	return copts, true
+}
+
+// validWindowBits reports whether v is a valid value for the max_window_bits
+// parameters: a decimal integer from 8 to 15 without leading zeros.
+// See https://tools.ietf.org/html/rfc7692#section-7.1.2
+func validWindowBits(v string) bool {
+	n, err := strconv.Atoi(v)
+	return err == nil && n >= 8 && n <= 15 && strconv.Itoa(n) == v
 }
 
 func headerContainsTokenIgnoreCase(h http.Header, key, token string) bool {
